@@ -245,18 +245,22 @@ Data(size, read, verdict) ==
 \* panic unwinds (Reset, then Logout), except with a per-recipient LMTP
 \* backend, whose panic is recovered in its own goroutine (every recipient
 \* gets 421, Logout, and the reset finds no session any more).
-DataPanic ==
-  LET cmd == CmdB("DATA", "small", 0, FALSE, "all-panic")
+\* read: "all" (the backend panics after the last octet) | "none" (it panics
+\* before reading anything: the whole message is still unread, and since the
+\* connection is given up none of it is ever looked at again)
+DataPanic(read) ==
+  LET cmd == CmdB("DATA", "small", 0, FALSE, read \o "-panic")
       dn == DataName
+      endcb == IF read = "all" THEN ".end:eof" ELSE ".end:none"
   IN
   /\ InCmdMode /\ "panic" \in Alphabet
   /\ st.bdat = "none" /\ ~st.binarymime /\ st.from /\ st.nrcpt > 0
   /\ st' = ClosedSt(st)
   /\ IF cfg.lmtp /\ cfg.lmtpBackend
      THEN Emit(cmd, <<R(354, <<>>)>> \o Rep(R(421, <<4, 0, 0>>), st.nrcpt),
-               <<CB(dn \o ".begin", st.sess), CB(dn \o ".end:eof", st.sess), CB("Logout", st.sess)>>)
+               <<CB(dn \o ".begin", st.sess), CB(dn \o endcb, st.sess), CB("Logout", st.sess)>>)
      ELSE Emit(cmd, <<R(354, <<>>), R(421, <<4, 0, 0>>)>>,
-               <<CB(dn \o ".begin", st.sess), CB(dn \o ".end:eof", st.sess),
+               <<CB(dn \o ".begin", st.sess), CB(dn \o endcb, st.sess),
                  CB("Reset", st.sess), CB("Logout", st.sess)>>)
 
 -----------------------------------------------------------------------------
@@ -624,7 +628,7 @@ Next ==
   \/ BdatAny
   \/ Rset \/ Noop \/ Vrfy \/ Unimpl
   \/ \E v \in {"unknown", "empty", "short", "nospace"} : BadLine(v)
-  \/ Quit \/ PeerClose \/ PeerAbort \/ LongLine \/ IdleTimeout \/ AuthIdle \/ PanicMail \/ PanicRset \/ DataPanic \/ AfterClose
+  \/ Quit \/ PeerClose \/ PeerAbort \/ LongLine \/ IdleTimeout \/ AuthIdle \/ PanicMail \/ PanicRset \/ (\E rd \in {"all", "none"} : DataPanic(rd)) \/ AfterClose
   \/ \E over \in BOOLEAN : DataCut(over)
   \/ DataStall \/ (\E l \in BOOLEAN : BdatStall(l)) \/ BdatStallRefused
   \/ \E n \in ChunkSizes, l \in BOOLEAN, p \in {"", "acc", "rej", "early", "panic"}, some \in BOOLEAN : BdatCut(n, l, p, some)
@@ -718,7 +722,7 @@ ReplyCountOK(l, preSt) ==
   CASE l.cmd.c \in {"EOF", "AFTER"} -> n = 0
     [] l.cmd.c = "IDLE" /\ l.cmd.a = "auth" -> n = 0     \* (as the code is, see AuthIdle)
     [] l.cmd.c = "STARTTLS" /\ l.cmd.a = "badhs" -> n \in {1, 2}   \* 220 then the handshake failure
-    [] l.cmd.c = "DATA" /\ l.cmd.p = "all-panic" -> n >= 2
+    [] l.cmd.c = "DATA" /\ l.cmd.p \in {"all-panic", "none-panic"} -> n >= 2
     [] l.cmd.c = "DATA" /\ n > 1 -> n = 1 + (IF cfg.lmtp THEN preSt.nrcpt ELSE 1)
     [] l.cmd.c = "BDAT" /\ l.cmd.l /\ l.cmd.a = "" /\ l.replies[1].code \in {250, 554, 421} ->
          n = (IF cfg.lmtp THEN preSt.nrcpt ELSE 1)
